@@ -323,7 +323,7 @@ def acl_case_st(draw, tier):
     acl["port_nr"] = draw(st.booleans())
     acl["protocol_nr"] = draw(st.booleans())
     acl["version"] = draw(st.sampled_from(["0", "0", "15.2(02)SY", "16.09.06", "12.4", "9.3(8)"]))
-    if draw(st.sampled_from(range(6))) == 0:
+    if draw(st.sampled_from(range(4))) == 0:
         # version-sensitive entry: a port whose name exists in another version / platform table only
         aces = [it for it in acl["items"] if it["t"] == "ace"]
         if aces:
@@ -333,6 +333,9 @@ def acl_case_st(draw, tier):
             rec[draw(st.sampled_from(["sp", "dp"]))] = {"op": "eq", "v": [nr], "nm": [-1]}
             if acl["platform"] == "ios":
                 acl["version"] = draw(st.sampled_from(["15.2(02)SY", "15.2(02)SY", "16.09.06", "12.4"]))
+            acl["port_nr"] = False
+            if any(it["t"] == "rem" and it["text"].startswith(acl["prefix"]) for it in acl["items"]) and draw(st.booleans()):
+                acl["group_by"] = acl["prefix"]
     acl["name"] = draw(st.sampled_from(["T", "ACL-1", "acl_x.y", "110", "a(b)c", "X&Y", "n:1/2"]))
     if draw(st.sampled_from(range(10))) == 0:
         acl["indent"] = ""
